@@ -1,6 +1,6 @@
 (** * C17: fatigue blurs every value by at most the fatigue ratio.
     The structure of [apply_fatigue] is analysed for every carrier; the bounds are on [NumQc]. *)
-From Coq Require Import ZArith QArith Qcanon Qabs Bool List String Lia Lqa Psatz Permutation.
+From Coq Require Import ZArith QArith Qcanon Qabs Bool List String Lia Lqa Permutation.
 From RDM Require Import Base.Num Base.NumQc Base.Util Model.Data Model.Rank Model.Utility Model.Levels
      Model.Heuristics Model.Electre Model.Listeners Model.Biases Check.Stage Check.BiasCheckers
      Proofs.SortFacts Proofs.RankFacts Proofs.WfFacts Proofs.LevelFacts Proofs.AggregateFacts Proofs.ReversalFacts.
